@@ -516,10 +516,10 @@ func c19CertHistory(ct *certificate.Certificate) (out string) {
 	b1 := ct.Bytes()
 	r1 := ct.RawBytes()
 	for i := range b1 {
-		b1[i] ^= 0xA5
+		b1[i] = 0xA5
 	}
 	for i := range r1 {
-		r1[i] ^= 0xA5
+		r1[i] = 0xA5
 	}
 	t, _ := ct.Type()
 	l, _ := ct.Length()
